@@ -288,7 +288,7 @@ Qed.
 
 Lemma pop_value_top_lx s v s' : wst_ok inp s -> wlive s -> tinv s -> pop_value_top s = WOk v s' ->
   value_lx_out 0 v s' /\ wstep inp s s'.
-Proof. intros. apply (pop_value_lx (S (length (wrest s))) 0); auto. unfold max_value_depth. lia. Qed.
+Proof. intros. apply (pop_value_lx (S (length (wrest s))) 0); auto. apply N.le_0_l. Qed.
 
 (* a popped operator token has its one-rune literal *)
 Lemma op_tok_lit t typ c : tok_lx t -> ty t = typ -> op_of c = Some typ ->
